@@ -179,7 +179,61 @@ class Flattener:
         nm = f.id if isinstance(f, ast.Name) else f.attr if isinstance(f, ast.Attribute) and isinstance(f.value, ast.Name) else None
         return self.recs.get(nm) if nm else None
 
-    def elements(self, e) -> Optional[List[ast.AST]]:
+    @staticmethod
+    def unrollable(comp) -> bool:
+        """a comprehension / generator with one plain ``for name in seq`` clause and an element expression without scopes of
+        its own (a lambda would capture the loop variable late)"""
+        if not isinstance(comp, (ast.ListComp, ast.GeneratorExp)) or len(comp.generators) != 1:
+            return False
+        g = comp.generators[0]
+        if g.ifs or g.is_async or not isinstance(g.target, ast.Name):
+            return False
+        return not any(isinstance(n, (ast.Lambda, ast.ListComp, ast.SetComp, ast.DictComp, ast.GeneratorExp, ast.NamedExpr, ast.Yield, ast.Await)) for n in ast.walk(comp.elt))
+
+    def seq_elements(self, fn: Optional[FunctionInfo], e, depth: int = 0) -> Optional[List[ast.AST]]:
+        """Element expressions of a fixed-length sequence expression whose container identity does not matter: a tuple / list
+        literal, a record construction, a local that is replaced by its fields, ``a + b``, ``tuple(..)`` / ``list(..)`` of
+        those, and a one-clause comprehension over those (element expressions must be read-only: they are duplicated)."""
+        if depth > 6:
+            return None
+        if isinstance(e, (ast.Tuple, ast.List)) and isinstance(getattr(e, "ctx", ast.Load()), ast.Load):
+            if any(isinstance(x, ast.Starred) for x in e.elts):
+                return None
+            return list(e.elts)
+        if isinstance(e, ast.Name) and fn is not None:
+            k = (id(fn.node), e.id)
+            sh = self.var_shape.get(k) or self.param_shape.get(k)
+            if sh is not None:
+                return [ast.copy_location(ast.Name(id=self._field_name(e.id, f), ctx=ast.Load()), e) for f in sh[2]]
+            return None
+        if isinstance(e, ast.Attribute) and e.attr == "_fields" and isinstance(e.value, ast.Name) and e.value.id in self.recs:
+            return [ast.copy_location(ast.Constant(value=f), e) for f in self.recs[e.value.id].fields]
+        if isinstance(e, ast.BinOp) and isinstance(e.op, ast.Add):
+            l, r = self.seq_elements(fn, e.left, depth + 1), self.seq_elements(fn, e.right, depth + 1)
+            return l + r if l is not None and r is not None else None
+        if isinstance(e, ast.Call) and isinstance(e.func, ast.Name) and e.func.id in ("tuple", "list") and len(e.args) == 1 and not e.keywords:
+            return self.seq_elements(fn, e.args[0], depth + 1)
+        if self.unrollable(e):
+            src = self.seq_elements(fn, e.generators[0].iter, depth + 1)
+            if src is None or not all(_read_only(x) for x in src):
+                return None
+            var = e.generators[0].target.id
+
+            class S(ast.NodeTransformer):
+                def __init__(self, c):
+                    self.c = c
+
+                def visit_Name(self, node):
+                    if node.id == var and isinstance(node.ctx, ast.Load):
+                        return ast.copy_location(copy.deepcopy(self.c), node)
+                    return node
+
+            return [S(c).visit(copy.deepcopy(e.elt)) for c in src]
+        if self.rec_of_call(e) is not None:
+            return self.elements(e, fn)
+        return None
+
+    def elements(self, e, fn: Optional[FunctionInfo] = None) -> Optional[List[ast.AST]]:
         """Field expressions of a literal construction, in field order; None when not literal."""
         if isinstance(e, ast.Tuple) and isinstance(getattr(e, "ctx", ast.Load()), ast.Load):
             if any(isinstance(x, ast.Starred) for x in e.elts):
@@ -187,7 +241,13 @@ class Flattener:
             return list(e.elts)
         r = self.rec_of_call(e)
         if r is None:
+            if isinstance(e, (ast.List, ast.ListComp, ast.BinOp)) or (isinstance(e, ast.Call) and isinstance(e.func, ast.Name) and e.func.id in ("tuple", "list")):
+                return self.seq_elements(fn, e)
             return None
+        if len(e.args) == 1 and not e.keywords and isinstance(e.args[0], ast.Starred):
+            inner = self.seq_elements(fn, e.args[0].value)
+            if inner is not None and len(inner) == len(r.fields):
+                return inner
         # X(*(f(key) for key in X._fields)) / over a literal tuple of constants: one element per field
         if len(e.args) == 1 and not e.keywords and isinstance(e.args[0], ast.Starred) and isinstance(e.args[0].value, (ast.GeneratorExp, ast.ListComp)):
             ge = e.args[0].value
@@ -248,6 +308,11 @@ class Flattener:
         if isinstance(e, ast.Name):
             k = (id(fn.node), e.id)
             return self.var_shape.get(k) or self.param_shape.get(k)
+        if isinstance(e, (ast.List, ast.ListComp, ast.BinOp)) or (isinstance(e, ast.Call) and isinstance(e.func, ast.Name) and e.func.id in ("tuple", "list")):
+            el = self.seq_elements(fn, e)
+            if el is not None and len(el) >= 2:
+                return ("tup", str(len(el)), tuple(str(i) for i in range(len(el))))
+            return None
         if isinstance(e, ast.Call):
             tg = [t for t in self.prog.resolve_call(fn, e) if isinstance(t, FunctionInfo)]
             if len(tg) == 1 and id(tg[0].node) in self.ret_shape:
@@ -271,6 +336,7 @@ class Flattener:
         """None = some use defeats the replacement; else whether whole uses exist."""
         fields = shape[2]
         whole = False
+        self._fieldwise_seen = False
         mutable = shape[0] == "rec" and self.recs[shape[1]].mutable
         for n in _own_nodes(fn.node):
             if not (isinstance(n, ast.Name) and n.id == name):
@@ -282,25 +348,39 @@ class Flattener:
                 if not isinstance(par.ctx, ast.Load):
                     return None
                 if shape[0] == "rec" and par.attr in fields:
+                    self._fieldwise_seen = True
                     continue
                 return None  # _replace, _asdict, index, count...
             if isinstance(par, ast.Subscript) and par.value is n:
                 if isinstance(par.ctx, ast.Load) and isinstance(par.slice, ast.Constant) and isinstance(par.slice.value, int) and -len(fields) <= par.slice.value < len(fields):
+                    self._fieldwise_seen = True
                     continue
                 return None
             if isinstance(par, ast.Assign) and par.value is n and len(par.targets) == 1 and isinstance(par.targets[0], (ast.Tuple, ast.List)):
                 tg = par.targets[0]
                 if len(tg.elts) == len(fields) and not any(isinstance(x, ast.Starred) for x in tg.elts):
+                    self._fieldwise_seen = True
                     continue
                 return None
             if isinstance(par, ast.Starred):
                 gp = self._parents.get(id(par))
                 if isinstance(gp, ast.Call) and any(a is par for a in gp.args):
+                    self._fieldwise_seen = True
                     continue
                 return None
+            # iterated by a comprehension that is unrolled (possibly through ``a + b`` / tuple(..))
+            top, up = n, par
+            while (isinstance(up, ast.BinOp) and isinstance(up.op, ast.Add)) or (isinstance(up, ast.Call) and isinstance(up.func, ast.Name) and up.func.id in ("tuple", "list") and top in up.args):
+                top, up = up, self._parents.get(id(up))
+            if isinstance(up, ast.comprehension) and up.iter is top:
+                comp = self._parents.get(id(up))
+                if self.unrollable(comp) and (top is n or self.seq_elements(fn, top) is not None):
+                    self._fieldwise_seen = True
+                    continue
             if mutable:
                 return None  # a shared mutable record may be written through the alias
             if self._is_flat_argument(fn, n, par):
+                self._fieldwise_seen = True
                 continue
             whole = True
         return whole
@@ -346,7 +426,7 @@ class Flattener:
                 for r in rets:
                     e = r.value.elts[i]
                     rec = self.rec_of_call(e)
-                    shapes.add(rec.shape if rec is not None and self.elements(e) is not None else None)
+                    shapes.add(rec.shape if rec is not None and self.elements(e, f) is not None else None)
                 if len(shapes) != 1 or None in shapes:
                     continue
                 sh = next(iter(shapes))
@@ -385,7 +465,7 @@ class Flattener:
                 if not sites:
                     continue
                 for r in rets:
-                    r.value.elts[i:i + 1] = self.elements(r.value.elts[i])
+                    r.value.elts[i:i + 1] = self.elements(r.value.elts[i], f)
                 for cf, par, t, reads in sites:
                     par.targets[0].elts[i:i + 1] = [ast.copy_location(ast.Name(id=self._field_name(t.id, fld), ctx=ast.Store()), t) for fld in sh[2]]
                     for node, fld in reads:
@@ -451,13 +531,21 @@ class Flattener:
                     if k in self.var_shape or name in bad or name in params or name in nested[id(f.node)]:
                         continue
                     shapes = [self.shape_of(f, d.value) for d in defs]
-                    if shapes[0] is None or any(s != shapes[0] for s in shapes):
+                    cand = next((s_ for s_ in shapes if s_ is not None), None)
+                    if cand is None:
                         continue
-                    w = self._classify_uses(f, name, shapes[0])
-                    if w is None:
+                    if any(s_ is None for s_ in shapes):
+                        # a definition in terms of the variable itself (``rows = [g(b) for b in rows]``): assume, then verify
+                        self.var_shape[k] = cand
+                        shapes = [self.shape_of(f, d.value) for d in defs]
+                        del self.var_shape[k]
+                    if any(s_ != cand for s_ in shapes):
                         continue
-                    # a plain alias of a tuple-returning call that is only passed on whole gains nothing
-                    self.var_shape[k] = shapes[0]
+                    self.var_shape[k] = cand  # (uses inside unrolled comprehensions are judged with the shape known)
+                    w = self._classify_uses(f, name, cand)
+                    if w is None or not self._fieldwise_seen:
+                        del self.var_shape[k]
+                        continue
                     self.whole[k] = w
                     changed = True
             # parameters of private functions
@@ -535,7 +623,7 @@ class Flattener:
 
     def field_exprs(self, fn: FunctionInfo, e, shape: Shape) -> List[ast.AST]:
         """Per-field expressions for the (already rewritten) value e of the given shape."""
-        el = self.elements(e)
+        el = self.elements(e, fn)
         if el is not None and len(el) == len(shape[2]):
             return el
         if self._split_key(fn, e) == shape:
@@ -622,15 +710,35 @@ class Flattener:
                         return ast.copy_location(ast.Name(id=fl._field_name(node.value.id, fld), ctx=ast.Load()), node)
                 return self.generic_visit(node)
 
+            def visit_ListComp(self, node):
+                el = fl.seq_elements(self.fn, node)
+                if el is not None:
+                    return ast.copy_location(ast.List(elts=[self.visit(x) for x in el], ctx=ast.Load()), node)
+                return self.generic_visit(node)
+
             def visit_Call(self, node):
                 targets = [t for t in prog.resolve_call(self.fn, node) if isinstance(t, FunctionInfo)]
+                # all(.. for b in seq) / any(..) over a fixed sequence: the conjunction / disjunction of the instances
+                if isinstance(node.func, ast.Name) and node.func.id in ("all", "any", "tuple", "list") and len(node.args) == 1 and not node.keywords:
+                    el = fl.seq_elements(self.fn, node.args[0]) if isinstance(node.args[0], (ast.GeneratorExp, ast.ListComp)) or node.func.id in ("all", "any") else None
+                    if el is not None:
+                        el = [self.visit(x) for x in el]
+                        if node.func.id == "tuple":
+                            return ast.copy_location(ast.Tuple(elts=el, ctx=ast.Load()), node)
+                        if node.func.id == "list":
+                            return ast.copy_location(ast.List(elts=el, ctx=ast.Load()), node)
+                        if len(el) >= 2:
+                            bo = ast.BoolOp(op=ast.And() if node.func.id == "all" else ast.Or(), values=el)
+                            return ast.copy_location(ast.Call(func=ast.Name(id="bool", ctx=ast.Load()), args=[bo], keywords=[]), node)
                 node = self.generic_visit(node)
-                # f(*t) with t split
+                # f(*t) with t split, f(*[g(b) for b in t])
                 new_args = []
                 for a in node.args:
                     if isinstance(a, ast.Starred) and isinstance(a.value, ast.Name) and self._shape(a.value.id) is not None:
                         sh = self._shape(a.value.id)
                         new_args += [ast.copy_location(ast.Name(id=fl._field_name(a.value.id, f), ctx=ast.Load()), a) for f in sh[2]]
+                    elif isinstance(a, ast.Starred) and isinstance(a.value, (ast.List, ast.Tuple)) and not any(isinstance(x, ast.Starred) for x in a.value.elts):
+                        new_args += list(a.value.elts)
                     else:
                         new_args.append(a)
                 node.args = new_args
@@ -662,7 +770,7 @@ class Flattener:
                 node = self.generic_visit(node)
                 if self.fid in ret_plain and node.value is not None:
                     sh = fl.ret_shape[self.fid]
-                    el = fl.elements(node.value)
+                    el = fl.elements(node.value, self.fn)
                     if el is None and isinstance(node.value, ast.Name) and self._shape(node.value.id) == sh:
                         el = fl.field_exprs(self.fn, node.value, sh)
                     if el is not None:
@@ -682,12 +790,19 @@ class Flattener:
                 if isinstance(target, ast.Name) and (self.fid, target.id) in fl.var_shape:
                     sh = fl.var_shape[(self.fid, target.id)]
                     value2 = self.visit(value)
-                    el = fl.elements(value2)
+                    el = fl.elements(value2, self.fn)
                     names = [fl._field_name(target.id, f) for f in sh[2]]
                     out = []
                     if el is not None and len(el) == len(names):
-                        for nm, ex in zip(names, el):
-                            out.append(ast.copy_location(ast.Assign(targets=[ast.Name(id=nm, ctx=ast.Store())], value=ex), node))
+                        # element i may read a field that an earlier element assignment of this statement overwrites
+                        # (``t = (t[1], t[0])``): then all fields are assigned at once
+                        cross = any(isinstance(x, ast.Name) and x.id in names[:i] for i, ex in enumerate(el) for x in ast.walk(ex))
+                        if cross:
+                            tg = ast.Tuple(elts=[ast.Name(id=nm, ctx=ast.Store()) for nm in names], ctx=ast.Store())
+                            out.append(ast.copy_location(ast.Assign(targets=[tg], value=ast.Tuple(elts=list(el), ctx=ast.Load())), node))
+                        else:
+                            for nm, ex in zip(names, el):
+                                out.append(ast.copy_location(ast.Assign(targets=[ast.Name(id=nm, ctx=ast.Store())], value=ex), node))
                     elif isinstance(value2, ast.Name) and self._shape(value2.id) == sh:
                         for nm, f in zip(names, sh[2]):
                             out.append(ast.copy_location(ast.Assign(targets=[ast.Name(id=nm, ctx=ast.Store())], value=ast.Name(id=fl._field_name(value2.id, f), ctx=ast.Load())), node))
@@ -935,6 +1050,19 @@ def _read_only(e) -> bool:
     return False
 
 
+def _same_object_each_time(e) -> bool:
+    """evaluating e twice yields the same object: names, attributes, subscripts, constants and dictionary-style ``.get``"""
+    if isinstance(e, (ast.Name, ast.Constant)):
+        return True
+    if isinstance(e, ast.Attribute):
+        return _same_object_each_time(e.value)
+    if isinstance(e, ast.Subscript):
+        return _same_object_each_time(e.value) and (isinstance(e.slice, ast.Constant) or isinstance(e.slice, ast.Name))
+    if isinstance(e, ast.Call) and isinstance(e.func, ast.Attribute) and e.func.attr == "get" and not e.keywords and all(isinstance(a, ast.Constant) for a in e.args):
+        return _same_object_each_time(e.func.value)
+    return False
+
+
 def _paths(e) -> Set[str]:
     out = set()
     for n in ast.walk(e):
@@ -985,6 +1113,8 @@ def _forward_fields(prog: Program, created: Dict[int, Set[str]]) -> int:
                     uses = loads.get(c, [])
                     if not uses:
                         continue
+                    if len(uses) > 1 and not _same_object_each_time(st.value):
+                        continue  # duplicating an allocating expression would hide that the uses share one object
                     epaths = _paths(st.value)
                     # statements of this block that contain the uses
                     use_stmt_idx = set()
